@@ -215,6 +215,17 @@ def missing_param_job(interp, c, case):
              dict(kind="missing", which=which))
     except ValueError:
         c.prove(True, "building an interface on such a model fails as well (%s)" % which)
+    # the refusal is not a one-off: the same model object is refused again (interface, initialisation) - it is never left looking initialised
+    for attempt in (2, 3):
+        try:
+            if attempt == 2:
+                Sm.ns["ModelCSimInterface"](M)
+            else:
+                M.py_initialize()
+            _rep(c, False, "attempt %d on the same model object goes through although the parameter still has no value (%s)" % (attempt, which),
+                 "missing parameter accepted on a later attempt", dict(kind="missing", which=which, again=True))
+        except ValueError:
+            c.prove(True, "attempt %d on the same model object is refused as well (%s)" % (attempt, which))
 
 
 def cases(tier):
